@@ -6,6 +6,7 @@ package props
 // from it. Steps are plain data (WStep) so that cases stay replayable.
 
 import (
+	"bytes"
 	"fmt"
 	"sort"
 
@@ -159,6 +160,21 @@ func (w *world) step(i int, st WStep) (caseErr, opErr error) {
 		for _, s := range st.Set {
 			delete(w.tracked, s)
 		}
+	case "reread":
+		// the writer serializes its own state and reads it back into the same instance (Read is a
+		// writer-side operation of the map forest); the state does not change
+		for _, in := range w.insts {
+			if in.M == nil {
+				continue
+			}
+			var buf bytes.Buffer
+			if _, err := in.M.Write(&buf); err != nil {
+				return nil, fmt.Errorf("step %d: %s: Write failed: %v", i, in.Cfg, err)
+			}
+			if _, err := in.M.Read(&buf); err != nil {
+				return nil, fmt.Errorf("step %d: %s: Read of its own stream failed: %v", i, in.Cfg, err)
+			}
+		}
 	default:
 		return fmt.Errorf("case error: unknown op %q", st.Op), nil
 	}
@@ -223,6 +239,8 @@ func (g *wgen) next(t *rapid.T, lim limits, ops []string) WStep {
 		op = "block"
 	}
 	switch op {
+	case "reread":
+		return WStep{Op: "reread"}
 	case "block":
 		g.stack = append(g.stack, wgFrame{f: g.f.Clone()})
 		b := genBlockSalt(t, g.f, lim, true, g.branch)
